@@ -113,6 +113,10 @@ def compare(p, sv, rv):
     # 1. executed-statement trace (control-flow path), call depth, scope-depth consistency
     st = sv["tr"]
     ev = rv.get("ev") or []
+    if p.get("scaled"):
+        # a SCALED program: the interpreter ran it with a much larger recursion depth than the specification (whose display trace,
+        # result and end state do not depend on the depth - checked by the driver on several small depths); the statement trace scales
+        st, ev = [], []
     # the definitions of a text (如何… / 定义… / 如何新建… headers) are statements of their own, executed when the text is loaded;
     # the control-flow trace of the model starts after them
     hdr = set((int(k[1:].split(":")[0]), v_) for k, v_ in lmap.items() if k.startswith("H"))
